@@ -319,6 +319,6 @@ def main (args : List String) : IO UInt32 := do
   | ["sess", script, transcript] => runSess script transcript; return 0
   | "pw" :: rest => Drv.runPw rest
   | "ids" :: rest => Drv.runIds rest
-  | "codec" :: rest => Drv.runCodec rest
+  | "codec" :: rest => Drv.Cdc.runCodec rest
   | "mx" :: rest => Drv.runMx rest
   | _ => IO.eprintln "usage: driver sess <script> <impl-transcript>"; return 2
